@@ -1554,7 +1554,8 @@ class Fxp():
         # return Fxp(self.val[index], like=self, raw=True)
         y = Fxp(like=self)
         y.val = self.val[index]
-        y._update_dtype()   # (elements of a complex array are complex)
+        if np.iscomplexobj(y.val):
+            y._update_dtype()   # (elements of a complex array are complex)
         return y
 
     def __setitem__(self, index, value):
